@@ -216,7 +216,7 @@ func wsAfter(n templang.Node) string {
 	switch n.K {
 	case "text", "expr", "void", "el":
 		return n.Tr
-	case "slot", "hcomment", "raw":
+	case "slot", "hcomment", "mcomment", "raw":
 		return n.After
 	}
 	return "v"
@@ -278,7 +278,7 @@ func separateForced(ns []templang.Node, loose bool) []templang.Node {
 		switch cur.K {
 		case "text", "expr", "void", "el":
 			ns[i].Tr = "v"
-		case "slot", "hcomment", "raw":
+		case "slot", "hcomment", "mcomment", "raw":
 			ns[i].After = "v"
 		}
 	}
